@@ -98,7 +98,8 @@ def scenario(sim):
             run_case(sim, s, case, fi)
     finally:
         s.close()
-    return {"sample": first, "nontrivial": True, "counts": [op[0] for op in first["ops"]]}
+    return {"sample": first, "nontrivial": True, "case_key": "%d|%s" % (first["size"], pattern(first)),
+            "counts": [op[0] for op in first["ops"]]}
 
 
 def snapshot(path):
